@@ -20,7 +20,7 @@ RULE = ("schemas of depth <= 4 and width <= 6 with identifier keys whose option 
         "and mutated states: the state afterwards must equal 'supplied and not ignored options set to their normal "
         "form and marked user-defined, every other value and flag untouched'; non-trivial = >= 4 paths and >= 1 "
         "command line applied; distinct = distinct (schema, state, command line)")
-REQUIRED = ("schema_grown_after_enumeration", "paths_checked", "dotted_assignments_checked", "parsers_compared", "overrides_compared", "argv:empty",
+REQUIRED = ("schemas_with_names_of_schema_methods_or_odd_underscores", "schema_grown_after_enumeration", "paths_checked", "dotted_assignments_checked", "parsers_compared", "overrides_compared", "argv:empty",
             "argv:bool-on", "argv:bool-off", "argv:bool-both-switches", "argv:value", "argv:repeated", "argv:invalid", "ignore:str", "ignore:list",
             "state:mutated", "depth>=3")
 ASSUMPTIONS = ["enumeration is judged on root schemas / configurations; membership is demanded of stored fields only",
@@ -50,11 +50,25 @@ def generate(rng, ctx):
             if rng.random() < 0.5:
                 b["params"]["default"] = rng.random() < 0.7
             schema["fields"].append(b)
+        # names that coincide with public names of the Schema class, names with doubled / trailing underscores
+        odd = ["validator", "make_type", "instance_method", "get_all_fields", "generate_argparse_parser", "dry__run", "class_", "x__y_"]
+        if rng.random() < 0.35:
+            nodes = [(spec.node_at(schema, spec.split_parent(p)[0]) if "." in p else schema, nd)
+                     for p, nd in spec.walk(schema) if "[]" not in p]
+            for owner, nd in rng.sample(nodes, min(len(nodes), rng.choice([1, 1, 2]))):
+                taken = {ch["key"] for ch in model.fields_of(owner)["fields"]}
+                free = [k for k in odd if k not in taken]
+                if free:
+                    nd["key"] = rng.choice(free)
+                    nd["odd_name"] = True
+            schema["odd_names"] = True
         # build styles: sub-schemas created by attribute access / item lookup / dotted item paths, or built and used
         # on their own before being mounted (field paths must not depend on the order of construction)
         for p, nd in spec.walk(schema):
             if nd["kind"] == "schema" and "[]" not in p and rng.random() < 0.4:
                 nd["style"] = rng.choice(["mounted", "mounted", "auto", "getitem", "dotted"])
+                if nd.get("odd_name") and nd["style"] == "auto":
+                    nd["style"] = "getitem"  # attribute access on the schema finds the method of that name
         paths = [p for p, nd in spec.walk(schema) if "[]" not in p]
         opts = set()
         ok = True
@@ -148,6 +162,8 @@ def run(case, ctx, res):
     env = env_of(ctx)
     drv = history.Driver(ctx, res, case["schema"], env)
     root, schema, cfg = drv.root, drv.built.schema, drv.cfg
+    if case["schema"].get("odd_names"):
+        res.count("schemas_with_names_of_schema_methods_or_odd_underscores")
     def check_names(stage):
         fields = cc.get_all_fields(schema)
         listed = [p for p, _o, _f in fields]
